@@ -495,5 +495,5 @@ func runBudget(tier string) time.Duration {
 	if tier == "thorough" {
 		return 1800 * time.Second
 	}
-	return 110 * time.Second
+	return 85 * time.Second
 }
